@@ -225,6 +225,33 @@ Theorem C14_timeout_answers_all : forall ops x,
 Proof. exact timeout_answers_all. Qed.
 Print Assumptions C14_timeout_answers_all.
 
+(* a lookup whose TubConnector fails SYNCHRONOUSLY inside Tub.getBrokerForTubRef (a FURL without a usable location hint:
+   none, unknown type, malformed, the handler raises; or every endpoint refuses at once) is the derived operation
+   Converge.nohints_ops: the lookup followed at once by the forced firing of the connector's timer, nothing dialled.
+   Schedules with such lookups (`hrun`) are schedules of the model, so every theorem of this file covers them ... *)
+Theorem C14_schedules_with_sync_failures : forall hs, exists ops, hrun hs = run ops.
+Proof. exact hrun_is_run. Qed.
+Print Assumptions C14_schedules_with_sync_failures.
+
+(* ... and "every getReference fires": such a lookup is errbacked at the moment it is made, and it leaves NO connector and
+   no waiter behind -- so the next lookup of that Tub starts a connector, with a time-out, of its own
+   (C14_every_lookup_fires_within_timeout); with a retry armed, the lookup made from inside the errback waits on a new
+   connector whose CONNECTION_TIMEOUT runs from now.  (The registration of the connector in Tub.tubConnectors BEFORE
+   connect() -- without which the failed connector would stay registered -- is a translated shape fact of
+   Tub.getBrokerForTubRef; the order inside Tub.connectionFailed is connection_failed_forgets_first.) *)
+Theorem C14_sync_failure_answered_at_once : forall ops x,
+  let s := run ops in
+  t_broker (tubof x s) = None -> t_connector (tubof x s) = None ->
+  let s' := fold_left step (nohints_ops x s) s in
+  now s' = now s /\
+  In (mkfired (t_issued (tubof x s)) (now s) (now s) false) (t_fired (tubof x s')) /\
+  (t_retry (tubof x s) = false -> t_connector (tubof x s') = None /\ t_waiters (tubof x s') = []) /\
+  (t_retry (tubof x s) = true ->
+     t_waiters (tubof x s') = [(S (t_issued (tubof x s)), now s)] /\ t_connector (tubof x s') <> None /\
+     t_deadline (tubof x s') = (now s + CONNECTION_TIMEOUT)%Z /\ t_retry (tubof x s') = false).
+Proof. exact sync_failure_answered_at_once. Qed.
+Print Assumptions C14_sync_failure_answered_at_once.
+
 (* "for all histories of previous connections recorded by either side": for every schedule, whenever both Tubs hold
    the same current connection, the non-master's slave_table record is exactly (master incarnation, seqnum of that
    connection) -- whoever dialled it.  (This is what lets its next offer, after a cut only it has noticed, prove
